@@ -8,6 +8,10 @@
 (* the rectangle ValidS x ValidF.  The code uses a per-sample count        *)
 (* (sanitizer.py: every sample has 0 or #valid-features non-null cells);    *)
 (* TLC proves both agree on every mask (C06_CriteriaAgree).                *)
+(* Kinds "DA2S" and "DAMI" are the same grid whose sample axis is realised *)
+(* as two stacked sample dimensions (NS = 2 x NS/2) resp. as a user        *)
+(* MultiIndex: the sanitizer then drops rows of a STACKED index, and every *)
+(* later stage has to restore labels for the rows that are left.           *)
 (* For cross-set models a second space enumerates the sets of fully        *)
 (* missing samples of the two fields.                                      *)
 (***************************************************************************)
@@ -18,6 +22,7 @@ CONSTANTS NS, NF, MKinds, CrossNS
 VARIABLES kind, mask, rx, ry, pred, phase
 vars == <<kind, mask, rx, ry, pred, phase>>
 
+GridKinds == {"DA", "DS2", "DA2S", "DAMI"}
 S == 1..NS
 F == 1..NF
 Cells == S \X F
@@ -35,7 +40,7 @@ CrossVerdict(a, b) == IF a = b THEN "deletedFromBoth" ELSE "refusedOrDeletedUnio
 Init ==
     /\ phase = "cfg" /\ pred = [class |-> "none"]
     /\ kind \in MKinds
-    /\ \/ (kind \in {"DA", "DS2"} /\ mask \in SUBSET Cells /\ rx = {} /\ ry = {})
+    /\ \/ (kind \in GridKinds /\ mask \in SUBSET Cells /\ rx = {} /\ ry = {})
        \/ (kind = "CROSS" /\ mask = {} /\ rx \in SUBSET (1..CrossNS) /\ ry \in SUBSET (1..CrossNS))
 
 Decide ==
